@@ -414,7 +414,7 @@ def run(tier, seed):
         rep.violation("coq-eval", {"broken": "correspondence evaluation failed", "log": out[-1500:]}, no_input=True)
         f = []
     for j in f[:2]:
-        rep.violation("neutrality:model-mismatch", {"broken": "correspondence impl<->Model/Awaitify.v", "case": texts[j]}, no_input=not fails)
+        rep.violation("neutrality:model-mismatch", {"broken": "correspondence impl<->Model/Awaitify.v", "case": texts[j]}, no_input=not rep.has_failing_input())
     rep.cov["traces_validated_against_impl"] = len(texts)
     rep.notes["model_mismatches"] = len(f)
     if not proofs_ok:
